@@ -31,6 +31,7 @@ import (
 	"seehuhn.de/go/sfnt/glyph"
 	"seehuhn.de/go/sfnt/internal/debug"
 	"seehuhn.de/go/sfnt/opentype/classdef"
+	"seehuhn.de/go/sfnt/opentype/coverage"
 	"seehuhn.de/go/sfnt/opentype/gdef"
 	"seehuhn.de/go/sfnt/opentype/gtab"
 	"seehuhn.de/go/sfnt/opentype/gtab/builder"
@@ -71,7 +72,10 @@ var fixedTime = time.Date(2024, 5, 17, 12, 0, 0, 0, time.UTC)
 var EnvNames = []string{"cff", "cff-gtab", "cff-sub", "cff-cid", "cff-nonames", "glyf", "glyf-gtab", "glyf-sub", "glyf-mono", "glyf-bi", "glyf-nonames",
 	// written by Font.Write and read back by sfnt.Read: everything the readers
 	// build (FDSelect closures, decoded tables) is in play
-	"rt-cid3", "rt-cid0", "rt-cff", "rt-glyf"}
+	"rt-cid3", "rt-cid0", "rt-cff", "rt-glyf",
+	// a GSUB lookup list of more than 64 KiB: Font.Write has to reorder the
+	// lookups and reach some subtables through extension records
+	"cff-big"}
 
 const richGsub = `GSUB5: "AA" -> 1@0 2@1 || "BC" -> 3@0
 	GSUB1: "A" -> "B", "C" -> "D"
@@ -111,6 +115,33 @@ func gtabInfo(ll gtab.LookupList, tag string, top []gtab.LookupIndex) *gtab.Info
 		},
 		LookupList: ll,
 	}
+}
+
+// bigLookupList: a few multiple-substitution lookups with long replacement
+// sequences (few objects, many bytes: the deep hash of the environment stays
+// cheap) adding up to a little more than 64 KiB.
+func bigLookupList(f *sfnt.Font) gtab.LookupList {
+	n := f.NumGlyphs()
+	const seqLen = 64
+	per := (n - 1) * (4 + 2*seqLen)
+	var ll gtab.LookupList
+	for k := 0; k*per < 80000; k++ {
+		cov := coverage.Table{}
+		repl := make([][]glyph.ID, 0, n-1)
+		for g := 1; g < n; g++ {
+			cov[glyph.ID(g)] = g - 1
+			seq := make([]glyph.ID, seqLen)
+			for i := range seq {
+				seq[i] = glyph.ID(1 + (g+k+i)%(n-1))
+			}
+			repl = append(repl, seq)
+		}
+		ll = append(ll, &gtab.LookupTable{
+			Meta:      &gtab.LookupMetaInfo{LookupType: 2},
+			Subtables: []gtab.Subtable{&gtab.Gsub2_1{Cov: cov, Repl: repl}},
+		})
+	}
+	return ll
 }
 
 func mustParse(f *sfnt.Font, desc string) gtab.LookupList {
@@ -200,6 +231,12 @@ func BuildEnv(name string) (e *Env, err error) {
 		f.Gdef = testGdef(f)
 		f.Gsub = gtabInfo(mustParse(f, richGsub), "liga", []gtab.LookupIndex{0, 4, 5, 6, 7})
 		f.Gpos = gtabInfo(mustParse(f, richGpos), "kern", []gtab.LookupIndex{0, 1, 2})
+	case "cff-big":
+		// lookup 0 is the only one a feature refers to: the big ones are
+		// written and read but never applied (their replacement sequences
+		// would blow a text up)
+		f.Gsub = gtabInfo(append(mustParse(f, `GSUB1: "A" -> "B", "C" -> "D"`), bigLookupList(f)...), "liga", []gtab.LookupIndex{0})
+		f.Gpos = gtabInfo(mustParse(f, subGpos), "kern", []gtab.LookupIndex{0})
 	case "cff-sub", "glyf-sub":
 		f.Gsub = gtabInfo(mustParse(f, subGsub), "liga", []gtab.LookupIndex{0, 1})
 		f.Gpos = gtabInfo(mustParse(f, subGpos), "kern", []gtab.LookupIndex{0})
